@@ -450,7 +450,26 @@ func c13Sequential(ch *zsim.Choices, trace bool) *RunResult {
 		zerolog.DisableSampling(false)
 		zerolog.SetGlobalLevel(zerolog.TraceLevel)
 		var clock int64 = int64(ch.Intn(3)) * 1000
-		zerolog.TimestampFunc = func() time.Time { return time.Unix(0, clock) }
+		// TimestampFunc is a variable: the application may replace it at any time, and a sampler
+		// reads the clock through whatever it holds at that moment. A replaced function keeps
+		// returning the reading it gave last.
+		gen := 0
+		var frozen []int64
+		install := func() {
+			if len(frozen) > 0 {
+				frozen[gen] = clock
+				gen++
+			}
+			frozen = append(frozen, 0)
+			g := gen
+			zerolog.TimestampFunc = func() time.Time {
+				if g != gen {
+					return time.Unix(0, frozen[g])
+				}
+				return time.Unix(0, clock)
+			}
+		}
+		install()
 		smp, model := genSampler(ch, 0)
 		sink := &c13Sink{got: map[string]int{}}
 		lgLevel := []zerolog.Level{zerolog.TraceLevel, zerolog.InfoLevel}[ch.Intn(2)]
@@ -483,6 +502,10 @@ func c13Sequential(ch *zsim.Choices, trace bool) *RunResult {
 			}
 			if clock < 0 {
 				clock = 0
+			}
+			if ch.Chance(1, 12) {
+				install()
+				zsim.Probe("timestamp_func_replaced")
 			}
 			// WithLevel(Fatal/Panic) neither exits nor panics; LevelSampler has no slot for them
 			lvl := []zerolog.Level{zerolog.InfoLevel, zerolog.DebugLevel, zerolog.WarnLevel, zerolog.ErrorLevel, zerolog.TraceLevel, zerolog.NoLevel, zerolog.FatalLevel, zerolog.PanicLevel, zerolog.Level(9), zerolog.Disabled}[ch.Intn(10)]
